@@ -56,6 +56,10 @@ CLAIMED["C11"] = dict(technique="differential testing of the real binary across 
 CLAIMED["C09"] = dict(technique="zero-diagnostic oracle over (a) real-world corpora after an independent precondition filter, through the real binary, and (b) rapid-generated annotation-free programs salted with near-miss comments",
     text="Packages of the standard library (thorough: all of std and the repository's dependencies from the module cache) that an independent go/parser scan finds free of annotation-like comment lines are analysed by the real binary under default, scan-tests and empty exclude-paths configurations; generated programs containing every site family but no annotation are salted with malformed keyword comments and with well-formed annotation lines at inert attachment sites. Any diagnostic is a violation.",
     note="corpus = what loads offline here (go1.23.5 std via the repository's toolchain switch, module cache); packages with load errors are counted and not judged", ref="DESIGN.md section 3, C09")
+
+CLAIMED["C10"] = dict(technique="robustness fuzzing with a crash oracle: rapid-generated annotated programs plus hand-written shape 'zoo' files, a skeleton whose comment slots carry rapid-generated annotation-fragment text, and standard-library packages with annotations injected through a go/packages overlay; in-process with recovered panics, through the binary and through go vet",
+    text="Every analyzer Run is wrapped so that a panic is recovered, attributed and shrunk; the binary's and vet's stderr are scanned for panic / internal error / fatal error and the -json exit status must be 0. Inputs: generated multi-package programs with all annotation kinds extended by zoo files (generics, package-level initialisers of every shape, anonymous structs, embedded fields, type switches, labels, channels, method values, empty and comment-only files, 128 kB lines), a two-package skeleton with 45 comment slots filled from an annotation-fragment alphabet, and std packages with @-annotations injected on 35% of their top-level declarations and fields.",
+    note="hang clause: a run slower than 60 s (in-process) / 120 s (external) is reported as inconclusive (exit 2), never as a violation; comment text that makes the skeleton uncompilable is dropped and counted; native go test -fuzz is not used (see DESIGN.md section 6)", ref="DESIGN.md section 3, C10")
 ALL = ["C%02d" % i for i in range(1, 20)]
 NA_REASON = {}
 def main():
